@@ -93,7 +93,7 @@ def run(rep):
     rep.coverage["partial"] = ("force_lookup_is_callsite_lookup_partial (hypotheses: closure-chain fuel adequacy, main's captured scopes add nothing); "
                                "lazy_semantics_partial: LazySemantics (machine = reference on all programs) is stated, not proved — missing the "
                                "execution simulation (C02 CompileCorrect F0-F3), held by the `lazy` correspondence of this run")
-    rep.coverage["rule"] = ("histories of 1-4 texts: 46 hand-written; exhaustive small scope (parameter lists of length 1-2 over {lazy,strict} x rest "
+    rep.coverage["rule"] = ("histories of 1-4 texts: 52 hand-written; exhaustive small scope (parameter lists of length 1-2 over {lazy,strict} x rest "
                             "{none, r, #r} x 16 routes x 5 force patterns x 3 argument kinds; one third per quick run rotating with the seed, all in "
                             "thorough); random scenarios (0-3 parameters, 9 argument kinds, 17 use patterns, follow-up texts forcing kept thunks); "
                             "malformed stream (one tree mutation or an arity error of the outer call); typed `func` scenarios (+std)")
